@@ -145,6 +145,35 @@ mutual
                      else (r.setAtF name v k p).map (Fields.grp k' g)
 end
 
+mutual
+  /-- The assignment stores the value in some group that afterwards visits its nested groups: the group itself or
+      one reached from it through initialised groups declares `name` and is initialised. -/
+  def Grp.stores (name : String) : Grp → Bool
+    | .mk i fs => i && (fs.declares name || fs.storesF name)
+  def Fields.storesF (name : String) : Fields → Bool
+    | .nil => false
+    | .atom _ _ r => r.storesF name
+    | .grp _ g r => g.stores name || r.storesF name
+end
+
+/-- `BaseParam.__setattr__` as Python runs it, for every value.  If a group inside the assigned value `v` declares
+    `name` (`¬ v.okFor name`) and `v` gets stored in an initialised group, that group visits `v`, `v` (or a group in
+    it) stores `v` in itself under `name` and visits it again: unbounded recursion, `RecursionError`
+    (e.g. `h = HistoryParams(); p.occupancy = h`).  Otherwise the result is `Grp.set`. -/
+def Grp.setPy (name : String) (v : Val) (g : Grp) : Res Grp :=
+  if !v.okFor name && g.stores name then .error .other else .ok (g.set name v)
+
+/-- `setattr(follow(root, path), name, v)` as Python runs it: `AttributeError` if the path does not lead to a
+    group, `RecursionError` as in `Grp.setPy`. -/
+def Grp.setAtPy (name : String) (v : Val) (path : List String) (g : Grp) : Res Grp :=
+  match g.at path with
+  | some (.grp h) =>
+    if !v.okFor name && h.stores name then .error .other else
+    match g.setAt name v path with
+    | some g' => .ok g'
+    | none => .error .attr
+  | _ => .error .attr
+
 /-- `self.__initialized = True` -/
 def Grp.markInit : Grp → Grp
   | .mk _ fs => .mk true fs
